@@ -169,6 +169,60 @@ def check(report, tier):
                                   "found_by": "transcript comparison", "no_failing_input_found": False},
                                  "%s: transcripts differ between %s and %s\n  %s\n  %s" % (name, sm[0][0], label, x[:300], y[:300]))
                 found = True
+    # ---- one fixed program over the API the script language cannot express (harness/cpp/apiprog.cpp), C++11 and later
+    am = vm + [("c++17.O2.ndebug.extras", "c++17", ["-O2", "-DNDEBUG", "-DAMC_NONSTD_FEATURES"])]
+    abuilds = {label: build.build("c16-api-" + label, [("apiprog", "apiprog.cpp", [])], None, flags, std=std) for label, std, flags in am}
+    aout = {}
+    for label, _, _ in am:
+        bdir, errs = abuilds[label]
+        if "apiprog" in errs:
+            msg = errs["apiprog"]
+            first = [l for l in msg.split("\n") if "error" in l][:3]
+            report.violation({"program": "harness/cpp/apiprog.cpp", "build": label, "expected": "the program compiles under every language level (it does with std::vector / std::set in place of the amc containers)",
+                              "observed": "\n".join(first) or msg[-1500:], "compiler_output": msg[-3000:], "found_by": "API program", "no_failing_input_found": False},
+                             "harness/cpp/apiprog.cpp does not compile under %s: %s" % (label, (first or ["?"])[0][:300]))
+            found = True
+            continue
+        rc, so, se = C.run([os.path.join(bdir, "apiprog")], timeout=300)
+        aout[label] = so.split("\n") if rc == 0 else ["<exit %d> %s" % (rc, se[-300:])] + so.split("\n")
+        evals += len(aout[label])
+        distinct.add(("apiprog", label))
+    if ref_label in aout:
+        sections = {}
+        cur = None
+        for l in aout[ref_label]:
+            if l.startswith("== "):
+                cur = l[3:]
+                sections[cur] = []
+            elif cur is not None and l != "END":
+                sections[cur].append(l)
+        if not aout[ref_label] or "END" not in aout[ref_label]:
+            report.violation({"program": "harness/cpp/apiprog.cpp", "build": ref_label, "observed": aout[ref_label][:5], "found_by": "API program", "no_failing_input_found": False},
+                             "harness/cpp/apiprog.cpp did not run to its end under %s" % ref_label)
+            found = True
+        # within one build: each amc section equals the std:: reference section of its group
+        refs = [k for k in sections if k.endswith("(reference)")]
+        for k, body in sections.items():
+            fam = [r for r in refs if (("PB" in r) == ("PB" in k)) and (("string" in r) == ("string" in k))]
+            if k in refs or k == "FlatSet" or not fam:
+                continue
+            d = _first_diff(sections[fam[0]], body)
+            compared.append((k, fam[0], ref_label))
+            if d is not None:
+                report.violation({"program": "harness/cpp/apiprog.cpp", "section": k, "build": ref_label, "std_container_prints": d[1], "amc_container_prints": d[2],
+                                  "found_by": "API program", "no_failing_input_found": False},
+                                 "apiprog [%s] %s: differs from the std:: container running the same calls\n  %s\n  %s" % (ref_label, k, d[1][:200], d[2][:200]))
+                found = True
+        for label, lines_out in aout.items():
+            if label == ref_label:
+                continue
+            compared.append(("apiprog", ref_label, label))
+            d = _first_diff(aout[ref_label], lines_out)
+            if d is not None:
+                report.violation({"program": "harness/cpp/apiprog.cpp", "build_a": ref_label, "build_b": label, "line": d[0], "output_a": d[1][:600], "output_b": d[2][:600],
+                                  "found_by": "API program", "no_failing_input_found": False},
+                                 "apiprog: output differs between %s and %s at line %d\n  %s\n  %s" % (ref_label, label, d[0] + 1, d[1][:300], d[2][:300]))
+                found = True
     # ---- compile probes
     pdir = os.path.join(C.CACHE, "c16-probes")
     os.makedirs(pdir, exist_ok=True)
@@ -190,7 +244,8 @@ def check(report, tier):
         report.violation({"broken": broken, "no_failing_input_found": True}, "proof obligations of C16 no longer check: " + "; ".join(broken)[:1200], True)
     report.coverage.update({
         "evaluations": evals, "distinct_nontrivial": len(distinct),
-        "rule": "fixed-seed script corpus (random histories + limit grids) x build matrix; evaluations = transcript lines produced over all builds + compile probes; "
+        "rule": "fixed-seed script corpus (random histories + limit grids) x build matrix; evaluations = transcript lines produced over all builds + output lines of the fixed API program (multi-argument emplace, "
+                "initializer lists, class and nested element types, container comparison, free swap; also compared with std:: containers) + compile probes; "
                 "distinct = (container configuration, build configuration) pairs whose transcript was produced and compared with the reference build's",
         "samples": [{"vector_builds": [l for l, _, _ in vm] + ["c++17.O2.ndebug.noextras"], "set_builds": [l for l, _, _ in sm]},
                     {"compile_probes": probe_results}],
@@ -210,3 +265,69 @@ def vecgen_history(lines, hid):
         elif cur == hid:
             out.append(l)
     return out
+
+
+def replay(payload):
+    """Re-run a replay file of C16 against the current tree (API program and script transcripts)."""
+    labels = {l: (s, f) for l, s, f in VEC_MATRIX_FULL + VEC_MATRIX_QUICK + SET_MATRIX_FULL + [("c++17.O2.ndebug.extras", "c++17", ["-O2", "-DNDEBUG", "-DAMC_NONSTD_FEATURES"])]}
+    if payload.get("program"):
+        outs = {}
+        for key in ("build", "build_a", "build_b"):
+            label = payload.get(key)
+            if not label or label not in labels:
+                continue
+            std, flags = labels[label]
+            bdir, errs = build.build("c16-api-" + label, [("apiprog", "apiprog.cpp", [])], None, flags, std=std)
+            if "apiprog" in errs:
+                print("\n".join([l for l in errs["apiprog"].split("\n") if "error" in l][:5]))
+                print("VIOLATION property=C16 replay=(replayed: apiprog.cpp does not compile under %s)" % label)
+                return 1
+            rc, so, se = C.run([os.path.join(bdir, "apiprog")], timeout=300)
+            outs[key] = so.split("\n")
+        if "build_a" in outs and "build_b" in outs and _first_diff(outs["build_a"], outs["build_b"]) is not None:
+            print("  %s\n  %s" % _first_diff(outs["build_a"], outs["build_b"])[1:])
+            print("VIOLATION property=C16 replay=(replayed: outputs differ)")
+            return 1
+        if "build" in outs and payload.get("section"):
+            secs, cur = {}, None
+            for l in outs["build"]:
+                if l.startswith("== "):
+                    cur = l[3:]
+                    secs[cur] = []
+                elif cur:
+                    secs[cur].append(l)
+            k = payload["section"]
+            fam = [r for r in secs if r.endswith("(reference)") and (("PB" in r) == ("PB" in k)) and (("string" in r) == ("string" in k))]
+            if fam and k in secs and secs[k] != secs[fam[0]]:
+                print("VIOLATION property=C16 replay=(replayed: section %s differs from the std:: reference)" % k)
+                return 1
+        print("replay passes on the current tree")
+        return 0
+    if payload.get("script") and payload.get("config") and payload.get("build_a") in labels and payload.get("build_b") in labels:
+        name = payload["config"]
+        is_set = name in setgen.CONFIGS
+        outs = []
+        for key in ("build_a", "build_b"):
+            label = payload[key]
+            std, flags = labels[label]
+            if is_set:
+                srcs = [("setdrv_%d" % g, "setdrv.cpp", ["-DGROUP=%d" % g]) for g in range(setgen.GROUPS)]
+                bdir, errs = build.build("c16-set-" + label, srcs, None, flags, std=std)
+                exe = "setdrv_%d" % SCfg(name).group
+            else:
+                srcs = [("vecdrv_%d" % g, "vecdrv.cpp", ["-DGROUP=%d" % g]) for g in range(build.VEC_GROUPS)]
+                bdir, errs = build.build("c16-vec-" + label, srcs, None, flags, std=std)
+                exe = "vecdrv_%d" % Cfg(name).group
+            if exe in errs:
+                print("VIOLATION property=C16 replay=(replayed: driver does not build under %s) no-failing-input-found" % label)
+                return 1
+            outs.append(_run(bdir, exe, name, ["H replay"] + payload["script"]))
+        d = _first_diff(outs[0], outs[1])
+        if d is not None:
+            print("  %s\n  %s" % d[1:])
+            print("VIOLATION property=C16 replay=(replayed: transcripts differ)")
+            return 1
+        print("replay passes on the current tree")
+        return 0
+    print("replay file names no re-runnable input (broken obligation: %s)" % payload.get("broken"))
+    return 0
